@@ -9,6 +9,10 @@ pub mod schemes;
 pub mod seams;
 pub mod session;
 pub mod shrink;
+#[cfg(feature = "full")]
+pub mod surgery;
+#[cfg(feature = "full")]
+pub mod lincode;
 
 use scenario::Scenario;
 use seams::mix64;
